@@ -341,6 +341,10 @@ def run(ctx: Any, prog: Program) -> None:
                 forms8 = defs8 if isinstance(e8, ast.Name) and defs8 else [e8]
                 folded = all(isinstance(f8, ast.Call) and isinstance(f8.func, ast.Attribute) and f8.func.attr in ('casefold', 'lower') for f8 in forms8)
                 n_q8 += 1
+                if not folded and isinstance(e8, ast.Name) and not defs8:
+                    # a parameter or loop variable: whether the caller folded it is not visible here
+                    ctx.shape('C16.Q8', False, fgd, c8, f'{q_}: where `{e8.id}` appended to kv_order comes from was not recognised', func=q_, text=f'{q_}: kv_order entry is the casefolded key')
+                    continue
                 ctx.check('C16.Q8', folded, fgd, c8, f'{q_} records `{U(forms8[0])[:40]}` in kv_order, but the keyvalue is stored under the casefolded name: export() looks the key up in kv_order to sort, finds nothing for a name '
                           'with capitals and writes that keyvalue last - the definition order of the file is lost', func=q_, text=f'{q_}: kv_order entry is the casefolded key')
     ctx.shape('C16.Q8', n_q8 >= 1, fgd, fgd.tree, f'{n_q8} appends to kv_order found (two confirmed by hand in EntityDef.parse)', text='kv_order appends')
